@@ -1,9 +1,18 @@
 package main
 
-// C15: lock-discipline facts for BfeServer.ServerConf — every syntactic access `X.ServerConf` in package
-// bfe_server (non-test, non-verif files), with the function it occurs in, whether it is a write (left side of an
-// assignment) and which confLock mode is held at that point (linear scan of the function body in source order:
-// confLock.Lock → 2, confLock.RLock → 1, Unlock/RUnlock → 0; `defer …Unlock()` keeps the lock to the end).
+// C15: facts about the reload / snapshot code, extracted SEMANTICALLY (same-package helpers are followed, locals are
+// resolved by type, facts are normalised) so that behaviour-preserving rewrites give the identical Generated file:
+//
+//  accesses   every access `X.ServerConf` in package bfe_server: (function, isWrite, confLock mode held).  The lock mode
+//             comes from a structural walk of the function body; a call of a same-package helper whose only effect on
+//             the lock count is +1 / -1 (e.g. `srv.lockConf()`) counts as Lock / Unlock.  Helpers reachable ONLY from
+//             InitDataLoad (start-up, before any listener) are reported under "InitDataLoad".  Sorted, de-duplicated.
+//  pathSites  for the request-path functions and the request-entry functions: how many places that obtain the
+//             CURRENT server data conf (a call of GetServerConf() or an access of .ServerConf) are reachable from them
+//             through same-package calls (methods resolved by receiver type).
+//  lockExits  for every function of the reload / balancer-table code that takes a mutex (itself or through a helper):
+//             every way out (each return, the end of the body) and whether the mutex is released there (no Lock still
+//             open, or a deferred Unlock / deferred unlocking helper covers it).  One line per function.
 
 import (
 	"fmt"
@@ -16,15 +25,191 @@ import (
 	"strings"
 )
 
-// ---- lock exits: for every function of the reload / balancer-table code that takes a mutex itself, every way out of
-// the function (each `return` and the end of the body) with the number of locks still held there and whether a
-// deferred Unlock covers it.  Structural walk: a branch that returns does not affect the code after it.
+// ---- package model ---------------------------------------------------------------------------------------------
 
-type lockExit struct {
-	fn       string
-	line     int
-	released bool
+type c15Pkg struct {
+	fset      *token.FileSet
+	funcs     map[string]*ast.FuncDecl     // qualified name -> decl
+	file      map[string]string            // qualified name -> base file name
+	methods   map[string]map[string]string // receiver type -> method name -> qualified name
+	fieldType map[string]map[string]string // struct type -> field -> named type
+	order     []string
 }
+
+func namedType(e ast.Expr) string {
+	switch v := e.(type) {
+	case *ast.StarExpr:
+		return namedType(v.X)
+	case *ast.ParenExpr:
+		return namedType(v.X)
+	case *ast.Ident:
+		return v.Name
+	case *ast.SelectorExpr: // other package: pkg.Type
+		if id, ok := v.X.(*ast.Ident); ok {
+			return id.Name + "." + v.Sel.Name
+		}
+	}
+	return ""
+}
+
+func c15Load(dir string, only []string) (*c15Pkg, error) {
+	p := &c15Pkg{fset: token.NewFileSet(), funcs: map[string]*ast.FuncDecl{}, file: map[string]string{},
+		methods: map[string]map[string]string{}, fieldType: map[string]map[string]string{}}
+	ents, err := os.ReadDir(dir)
+	if err != nil {
+		return nil, err
+	}
+	want := map[string]bool{}
+	for _, o := range only {
+		want[o] = true
+	}
+	for _, e := range ents {
+		n := e.Name()
+		if !strings.HasSuffix(n, ".go") || strings.HasSuffix(n, "_test.go") || strings.HasPrefix(n, "zz_verif") {
+			continue
+		}
+		if len(only) > 0 && !want[n] {
+			continue
+		}
+		f, err := parser.ParseFile(p.fset, filepath.Join(dir, n), nil, 0)
+		if err != nil {
+			return nil, err
+		}
+		for _, d := range f.Decls {
+			switch v := d.(type) {
+			case *ast.GenDecl:
+				for _, s := range v.Specs {
+					ts, ok := s.(*ast.TypeSpec)
+					if !ok {
+						continue
+					}
+					st, ok := ts.Type.(*ast.StructType)
+					if !ok {
+						continue
+					}
+					m := map[string]string{}
+					for _, fl := range st.Fields.List {
+						t := namedType(fl.Type)
+						if len(fl.Names) == 0 && t != "" { // embedded
+							parts := strings.Split(t, ".")
+							m[parts[len(parts)-1]] = t
+						}
+						for _, nm := range fl.Names {
+							m[nm.Name] = t
+						}
+					}
+					p.fieldType[ts.Name.Name] = m
+				}
+			case *ast.FuncDecl:
+				if v.Body == nil {
+					continue
+				}
+				q := v.Name.Name
+				if v.Recv != nil && len(v.Recv.List) == 1 {
+					rt := namedType(v.Recv.List[0].Type)
+					q = rt + "." + v.Name.Name
+					if p.methods[rt] == nil {
+						p.methods[rt] = map[string]string{}
+					}
+					p.methods[rt][v.Name.Name] = q
+				}
+				p.funcs[q] = v
+				p.file[q] = n
+				p.order = append(p.order, q)
+			}
+		}
+	}
+	sort.Strings(p.order)
+	return p, nil
+}
+
+// env: identifier -> named type, from receiver, parameters and simple local definitions
+func (p *c15Pkg) envOf(fd *ast.FuncDecl) map[string]string {
+	env := map[string]string{}
+	add := func(fl *ast.FieldList) {
+		if fl == nil {
+			return
+		}
+		for _, f := range fl.List {
+			t := namedType(f.Type)
+			for _, n := range f.Names {
+				env[n.Name] = t
+			}
+		}
+	}
+	add(fd.Recv)
+	add(fd.Type.Params)
+	// locals: x := <expr with inferable type>, var x T   (two passes so that chains resolve)
+	for pass := 0; pass < 2; pass++ {
+		ast.Inspect(fd.Body, func(n ast.Node) bool {
+			switch v := n.(type) {
+			case *ast.AssignStmt:
+				if v.Tok == token.DEFINE && len(v.Lhs) == len(v.Rhs) {
+					for i, l := range v.Lhs {
+						if id, ok := l.(*ast.Ident); ok {
+							if t := p.typeOf(v.Rhs[i], env); t != "" {
+								env[id.Name] = t
+							}
+						}
+					}
+				}
+			case *ast.ValueSpec:
+				if v.Type != nil {
+					for _, id := range v.Names {
+						env[id.Name] = namedType(v.Type)
+					}
+				}
+			}
+			return true
+		})
+	}
+	return env
+}
+
+func (p *c15Pkg) typeOf(e ast.Expr, env map[string]string) string {
+	switch v := e.(type) {
+	case *ast.Ident:
+		return env[v.Name]
+	case *ast.ParenExpr:
+		return p.typeOf(v.X, env)
+	case *ast.StarExpr:
+		return p.typeOf(v.X, env)
+	case *ast.UnaryExpr:
+		return p.typeOf(v.X, env)
+	case *ast.SelectorExpr:
+		if t := p.typeOf(v.X, env); t != "" {
+			if m, ok := p.fieldType[t]; ok {
+				return m[v.Sel.Name]
+			}
+		}
+	}
+	return ""
+}
+
+// callee resolves a call to a same-package function / method ("" if unknown or foreign)
+func (p *c15Pkg) callee(c *ast.CallExpr, env map[string]string) string {
+	switch f := c.Fun.(type) {
+	case *ast.Ident:
+		if _, ok := p.funcs[f.Name]; ok {
+			return f.Name
+		}
+	case *ast.SelectorExpr:
+		if t := p.typeOf(f.X, env); t != "" {
+			if q, ok := p.methods[t][f.Sel.Name]; ok {
+				return q
+			}
+			// promoted method of an embedded same-package struct
+			for _, ft := range p.fieldType[t] {
+				if q, ok := p.methods[ft][f.Sel.Name]; ok && p.fieldType[t][ft] == ft {
+					return q
+				}
+			}
+		}
+	}
+	return ""
+}
+
+// ---- structural lock walk -----------------------------------------------------------------------------------------
 
 func lockCallKind(e ast.Expr) int { // +1 Lock/RLock, -1 Unlock/RUnlock, 0 other
 	c, ok := e.(*ast.CallExpr)
@@ -44,30 +229,70 @@ func lockCallKind(e ast.Expr) int { // +1 Lock/RLock, -1 Unlock/RUnlock, 0 other
 	return 0
 }
 
+func lockMode(e ast.Expr) int { // 2 Lock, 1 RLock, 0 otherwise
+	if c, ok := e.(*ast.CallExpr); ok {
+		if sel, ok := c.Fun.(*ast.SelectorExpr); ok && len(c.Args) == 0 {
+			switch sel.Sel.Name {
+			case "Lock":
+				return 2
+			case "RLock":
+				return 1
+			}
+		}
+	}
+	return 0
+}
+
 type lockWalker struct {
-	fset     *token.FileSet
-	fn       string
+	p        *c15Pkg
+	env      map[string]string
+	net      map[string]int // helper -> net lock effect (only helpers with a uniform non-zero effect)
 	deferred bool
-	exits    []lockExit
+	exits    []bool // released?
+	helds    []int
 	locks    int
+	onAccess func(pos token.Pos, held int) // called for every statement with the lock count before it
+}
+
+// effect of one expression statement on the lock count
+func (w *lockWalker) effect(e ast.Expr) int {
+	if k := lockCallKind(e); k != 0 {
+		return k
+	}
+	if c, ok := e.(*ast.CallExpr); ok {
+		if q := w.p.callee(c, w.env); q != "" {
+			return w.net[q]
+		}
+	}
+	return 0
 }
 
 // walk returns (held after the list, terminated)
 func (w *lockWalker) walk(stmts []ast.Stmt, held int) (int, bool) {
 	for _, st := range stmts {
+		if w.onAccess != nil {
+			w.onAccess(st.Pos(), held)
+		}
 		switch v := st.(type) {
 		case *ast.ExprStmt:
-			k := lockCallKind(v.X)
+			k := w.effect(v.X)
 			if k > 0 {
 				w.locks++
 			}
 			held += k
 		case *ast.DeferStmt:
-			if lockCallKind(v.Call) < 0 {
+			if w.effect(v.Call) < 0 {
 				w.deferred = true
 			}
+			if fl, ok := v.Call.Fun.(*ast.FuncLit); ok { // defer func() { …Unlock() }()
+				h, _ := (&lockWalker{p: w.p, env: w.env, net: w.net}).walk(fl.Body.List, 0)
+				if h < 0 {
+					w.deferred = true
+				}
+			}
 		case *ast.ReturnStmt:
-			w.exits = append(w.exits, lockExit{w.fn, w.fset.Position(v.Pos()).Line, held <= 0 || w.deferred})
+			w.exits = append(w.exits, held <= 0 || w.deferred)
+			w.helds = append(w.helds, held)
 			return held, true
 		case *ast.BlockStmt:
 			h, t := w.walk(v.List, held)
@@ -111,17 +336,12 @@ func (w *lockWalker) walk(stmts []ast.Stmt, held int) (int, bool) {
 				held = h
 			}
 		case *ast.SwitchStmt:
-			for _, c := range v.Body.List {
-				if cc, ok := c.(*ast.CaseClause); ok {
-					h, t := w.walk(cc.Body, held)
-					if !t && h > held {
-						held = h
-					}
-				}
-			}
+			held = w.walkCases(v.Body.List, held)
 		case *ast.TypeSwitchStmt:
+			held = w.walkCases(v.Body.List, held)
+		case *ast.SelectStmt:
 			for _, c := range v.Body.List {
-				if cc, ok := c.(*ast.CaseClause); ok {
+				if cc, ok := c.(*ast.CommClause); ok {
 					h, t := w.walk(cc.Body, held)
 					if !t && h > held {
 						held = h
@@ -139,269 +359,347 @@ func (w *lockWalker) walk(stmts []ast.Stmt, held int) (int, bool) {
 	return held, false
 }
 
-func lockExitsOf(repo string, rels []string) ([]lockExit, error) {
-	var out []lockExit
-	fset := token.NewFileSet()
-	for _, rel := range rels {
-		f, err := parser.ParseFile(fset, filepath.Join(repo, rel), nil, 0)
-		if err != nil {
-			return nil, err
-		}
-		for _, d := range f.Decls {
-			fd, ok := d.(*ast.FuncDecl)
-			if !ok || fd.Body == nil {
-				continue
-			}
-			name := fd.Name.Name
-			if fd.Recv != nil && len(fd.Recv.List) == 1 {
-				t := fd.Recv.List[0].Type
-				if st, ok := t.(*ast.StarExpr); ok {
-					t = st.X
-				}
-				if id, ok := t.(*ast.Ident); ok {
-					name = id.Name + "." + name
-				}
-			}
-			w := &lockWalker{fset: fset, fn: filepath.Base(rel) + ":" + name}
-			h, term := w.walk(fd.Body.List, 0)
-			if !term {
-				w.exits = append(w.exits, lockExit{w.fn, fset.Position(fd.Body.Rbrace).Line, h <= 0 || w.deferred})
-			}
-			if w.locks > 0 { // only functions that take a lock themselves
-				out = append(out, w.exits...)
+func (w *lockWalker) walkCases(list []ast.Stmt, held int) int {
+	out := held
+	for _, c := range list {
+		if cc, ok := c.(*ast.CaseClause); ok {
+			h, t := w.walk(cc.Body, held)
+			if !t && h > out {
+				out = h
 			}
 		}
 	}
-	return out, nil
+	return out
+}
+
+// netEffects: helpers whose every exit leaves the same non-zero lock count and that use no defer
+func (p *c15Pkg) netEffects() map[string]int {
+	net := map[string]int{}
+	for round := 0; round < 3; round++ { // helpers of helpers
+		for _, q := range p.order {
+			fd := p.funcs[q]
+			w := &lockWalker{p: p, env: p.envOf(fd), net: net}
+			h, term := w.walk(fd.Body.List, 0)
+			if !term {
+				w.helds = append(w.helds, h)
+			}
+			if w.deferred || len(w.helds) == 0 {
+				continue
+			}
+			same := true
+			for _, x := range w.helds {
+				if x != w.helds[0] {
+					same = false
+				}
+			}
+			if same && w.helds[0] != 0 {
+				net[q] = w.helds[0]
+			}
+		}
+	}
+	return net
+}
+
+// ---- call graph -------------------------------------------------------------------------------------------------
+
+func (p *c15Pkg) callees(q string) []string {
+	fd := p.funcs[q]
+	env := p.envOf(fd)
+	seen := map[string]bool{}
+	ast.Inspect(fd.Body, func(n ast.Node) bool {
+		if c, ok := n.(*ast.CallExpr); ok {
+			if t := p.callee(c, env); t != "" {
+				seen[t] = true
+			}
+		}
+		return true
+	})
+	var out []string
+	for k := range seen {
+		out = append(out, k)
+	}
+	sort.Strings(out)
+	return out
 }
 
 func init() {
 	register("C15", func(repo string) (string, error) {
-		dir := filepath.Join(repo, "bfe_server")
-		ents, err := os.ReadDir(dir)
+		srvPkg, err := c15Load(filepath.Join(repo, "bfe_server"), nil)
 		if err != nil {
 			return "", err
 		}
+		// the field must still be declared next to confLock
+		if ft := srvPkg.fieldType["BfeServer"]; ft == nil || ft["ServerConf"] == "" {
+			return "", fmt.Errorf("bfe_server: BfeServer.ServerConf not found")
+		} else if _, ok := ft["confLock"]; !ok {
+			return "", fmt.Errorf("bfe_server: BfeServer.confLock not found")
+		}
+		net := srvPkg.netEffects()
+
+		// call graph, callers
+		callees := map[string][]string{}
+		callers := map[string][]string{}
+		for _, q := range srvPkg.order {
+			callees[q] = srvPkg.callees(q)
+			for _, c := range callees[q] {
+				callers[c] = append(callers[c], q)
+			}
+		}
+		// start-up only helpers
+		startup := map[string]bool{"BfeServer.InitDataLoad": true}
+		for changed := true; changed; {
+			changed = false
+			for _, q := range srvPkg.order {
+				if startup[q] || len(callers[q]) == 0 {
+					continue
+				}
+				all := true
+				for _, c := range callers[q] {
+					if !startup[c] {
+						all = false
+					}
+				}
+				if all {
+					startup[q] = true
+					changed = true
+				}
+			}
+		}
+
+		// (1) accesses of .ServerConf with the lock mode held
 		type acc struct {
 			fn    string
 			write bool
 			mode  int
-			file  string
-			line  int
 		}
-		var accs []acc
-		type site struct {
-			fn, what, file string
-			line           int
-		}
-		var sites []site
-		fset := token.NewFileSet()
-		sawField := false
-		for _, e := range ents {
-			n := e.Name()
-			if !strings.HasSuffix(n, ".go") || strings.HasSuffix(n, "_test.go") || strings.HasPrefix(n, "zz_verif") {
-				continue
-			}
-			f, err := parser.ParseFile(fset, filepath.Join(dir, n), nil, 0)
-			if err != nil {
-				return "", err
-			}
-			// the field must still be declared next to confLock
-			ast.Inspect(f, func(x ast.Node) bool {
-				if st, ok := x.(*ast.StructType); ok {
-					hasLock, hasConf := false, false
-					for _, fl := range st.Fields.List {
-						for _, nm := range fl.Names {
-							if nm.Name == "confLock" {
-								hasLock = true
-							}
-							if nm.Name == "ServerConf" {
-								hasConf = true
-							}
-						}
-					}
-					if hasLock && hasConf {
-						sawField = true
+		accSet := map[acc]bool{}
+		siteCount := map[string]int{} // direct sites per function (GetServerConf() calls + .ServerConf accesses)
+		for _, q := range srvPkg.order {
+			fd := srvPkg.funcs[q]
+			env := srvPkg.envOf(fd)
+			writes := map[ast.Expr]bool{}
+			ast.Inspect(fd.Body, func(x ast.Node) bool {
+				if v, ok := x.(*ast.AssignStmt); ok {
+					for _, l := range v.Lhs {
+						writes[l] = true
 					}
 				}
 				return true
 			})
-			for _, d := range f.Decls {
-				fd, ok := d.(*ast.FuncDecl)
-				if !ok || fd.Body == nil {
-					continue
-				}
-				// receiver-qualified name, e.g. "ReverseProxy.ServeHTTP", "conn.readRequest", "newConn"
-				qual := fd.Name.Name
-				if fd.Recv != nil && len(fd.Recv.List) == 1 {
-					t := fd.Recv.List[0].Type
-					if st, ok := t.(*ast.StarExpr); ok {
-						t = st.X
-					}
-					if id, ok := t.(*ast.Ident); ok {
-						qual = id.Name + "." + fd.Name.Name
-					}
-				}
-				ast.Inspect(fd.Body, func(x ast.Node) bool {
-					switch v := x.(type) {
-					case *ast.CallExpr:
-						if sel, ok := v.Fun.(*ast.SelectorExpr); ok && sel.Sel.Name == "GetServerConf" {
-							sites = append(sites, site{qual, "GetServerConf", n, fset.Position(v.Pos()).Line})
-						}
-					case *ast.SelectorExpr:
-						if v.Sel.Name == "ServerConf" {
-							sites = append(sites, site{qual, "ServerConf", n, fset.Position(v.Pos()).Line})
-						}
-						if v.Sel.Name == "GetServerConf" {
-							// method value (not a call) would escape the call scan: record it as well
-							sites = append(sites, site{qual, "GetServerConf-ref", n, fset.Position(v.Pos()).Line})
-						}
-					}
-					return true
-				})
-				type ev struct {
-					pos  token.Pos
-					kind int // 0 access-read, 1 access-write, 2 Lock, 3 RLock, 4 Unlock
-				}
-				var evs []ev
-				writes := map[ast.Expr]bool{}
-				deferred := map[ast.Node]bool{}
-				ast.Inspect(fd.Body, func(x ast.Node) bool {
-					switch v := x.(type) {
-					case *ast.AssignStmt:
-						for _, l := range v.Lhs {
-							writes[l] = true
-						}
-					case *ast.DeferStmt:
-						deferred[v.Call] = true
-					case *ast.FuncLit:
-						// closures run at unknown times: treat their body as holding no lock
-						return true
-					}
-					return true
-				})
-				ast.Inspect(fd.Body, func(x ast.Node) bool {
-					switch v := x.(type) {
-					case *ast.CallExpr:
-						if sel, ok := v.Fun.(*ast.SelectorExpr); ok {
-							if in, ok := sel.X.(*ast.SelectorExpr); ok && in.Sel.Name == "confLock" {
-								switch sel.Sel.Name {
-								case "Lock":
-									evs = append(evs, ev{v.Pos(), 2})
-								case "RLock":
-									evs = append(evs, ev{v.Pos(), 3})
-								case "Unlock", "RUnlock":
-									if !deferred[v] {
-										evs = append(evs, ev{v.Pos(), 4})
-									}
-								}
-							}
-						}
-					case *ast.SelectorExpr:
-						if v.Sel.Name == "ServerConf" {
-							k := 0
-							if writes[v] {
-								k = 1
-							}
-							evs = append(evs, ev{v.Pos(), k})
-						}
-					}
-					return true
-				})
-				sort.Slice(evs, func(i, j int) bool { return evs[i].pos < evs[j].pos })
-				mode := 0
-				for _, e := range evs {
-					switch e.kind {
-					case 2:
-						mode = 2
-					case 3:
-						mode = 1
-					case 4:
-						mode = 0
-					default:
-						accs = append(accs, acc{fd.Name.Name, e.kind == 1, mode, n, fset.Position(e.pos).Line})
-					}
-				}
+			// lock mode per statement start: structural walk records (pos, held); mode (R/W) from the latest Lock kind seen
+			type mark struct {
+				pos  token.Pos
+				held int
 			}
+			var marks []mark
+			w := &lockWalker{p: srvPkg, env: env, net: net}
+			w.onAccess = func(pos token.Pos, held int) { marks = append(marks, mark{pos, held}) }
+			w.walk(fd.Body.List, 0)
+			sort.Slice(marks, func(i, j int) bool { return marks[i].pos < marks[j].pos })
+			// kind of the most recent lock call before a position (Lock=2 / RLock=1), also through helpers
+			type lk struct {
+				pos  token.Pos
+				mode int
+			}
+			var lks []lk
+			ast.Inspect(fd.Body, func(x ast.Node) bool {
+				if c, ok := x.(*ast.CallExpr); ok {
+					if m := lockMode(c); m != 0 {
+						lks = append(lks, lk{c.Pos(), m})
+					} else if t := srvPkg.callee(c, env); t != "" && net[t] > 0 {
+						m := 2
+						ast.Inspect(srvPkg.funcs[t].Body, func(y ast.Node) bool {
+							if cc, ok := y.(*ast.CallExpr); ok && lockMode(cc) == 1 {
+								m = 1
+							}
+							return true
+						})
+						lks = append(lks, lk{c.Pos(), m})
+					}
+				}
+				return true
+			})
+			sort.Slice(lks, func(i, j int) bool { return lks[i].pos < lks[j].pos })
+			heldAt := func(pos token.Pos) int {
+				h := 0
+				for _, m := range marks {
+					if m.pos <= pos {
+						h = m.held
+					}
+				}
+				if h <= 0 && !w.deferred {
+					return 0
+				}
+				if h <= 0 && w.deferred {
+					// lock taken with a deferred unlock: held from the Lock statement on
+					h = 0
+					for _, l := range lks {
+						if l.pos < pos {
+							h = 1
+						}
+					}
+					if h == 0 {
+						return 0
+					}
+				}
+				mode := 0
+				for _, l := range lks {
+					if l.pos < pos {
+						mode = l.mode
+					}
+				}
+				return mode
+			}
+			name := fd.Name.Name
+			if startup[q] {
+				name = "InitDataLoad"
+			}
+			ast.Inspect(fd.Body, func(x ast.Node) bool {
+				switch v := x.(type) {
+				case *ast.SelectorExpr:
+					if v.Sel.Name == "ServerConf" && srvPkg.typeOf(v.X, env) == "BfeServer" {
+						accSet[acc{name, writes[v], heldAt(v.Pos())}] = true
+						siteCount[q]++
+					}
+				case *ast.CallExpr:
+					if sel, ok := v.Fun.(*ast.SelectorExpr); ok && sel.Sel.Name == "GetServerConf" {
+						siteCount[q]++
+					}
+				}
+				return true
+			})
 		}
-		if !sawField {
-			return "", fmt.Errorf("bfe_server: struct with fields confLock and ServerConf not found")
+		if len(accSet) == 0 {
+			return "", fmt.Errorf("bfe_server: no access to BfeServer.ServerConf found")
 		}
-		if len(accs) == 0 {
-			return "", fmt.Errorf("bfe_server: no access to ServerConf found")
+		var accs []acc
+		for a := range accSet {
+			accs = append(accs, a)
 		}
 		sort.Slice(accs, func(i, j int) bool {
-			if accs[i].file != accs[j].file {
-				return accs[i].file < accs[j].file
+			if accs[i].fn != accs[j].fn {
+				return accs[i].fn < accs[j].fn
 			}
-			return accs[i].line < accs[j].line
+			if accs[i].write != accs[j].write {
+				return !accs[i].write
+			}
+			return accs[i].mode < accs[j].mode
 		})
+
+		// (2) sites reachable from request-path / request-entry functions (GetServerConf itself is a leaf)
+		reach := func(root string) int {
+			seen := map[string]bool{}
+			var dfs func(q string)
+			total := 0
+			dfs = func(q string) {
+				if seen[q] || q == "BfeServer.GetServerConf" {
+					return
+				}
+				seen[q] = true
+				total += siteCount[q]
+				for _, c := range callees[q] {
+					dfs(c)
+				}
+			}
+			dfs(root)
+			return total
+		}
+		roots := []string{"ReverseProxy.ServeHTTP", "ReverseProxy.clusterInvoke", "ReverseProxy.FinishReq", "BfeServer.findProduct",
+			"BfeServer.findCluster", "BfeServer.FindLocation", "conn.serveRequest",
+			"conn.readRequest", "ProtocolHandler.ServeHTTP", "BfeServer.Balance"}
+		for _, must := range []string{"ReverseProxy.ServeHTTP", "conn.readRequest", "BfeServer.findCluster", "BfeServer.findProduct"} {
+			if _, ok := srvPkg.funcs[must]; !ok {
+				return "", fmt.Errorf("bfe_server: function %s not found", must)
+			}
+		}
+
 		var b strings.Builder
-		b.WriteString(header("C15", "bfe_server/*.go"))
-		b.WriteString("/-- every access `X.ServerConf` in package bfe_server: (function, isWrite, confLock mode held: 0 none / 1 RLock / 2 Lock) -/\n")
+		b.WriteString(header("C15", "bfe_server/*.go", "bfe_balance/bal_table.go", "bfe_balance/bal_gslb/bal_gslb.go", "bfe_route/bfe_cluster/bfe_cluster.go"))
+		b.WriteString("/-- every access `X.ServerConf` (X a BfeServer) in package bfe_server: (function, isWrite, confLock mode held: 0 none / 1 RLock / 2 Lock);\n    helpers reachable only from InitDataLoad are listed as \"InitDataLoad\"; sorted, de-duplicated -/\n")
 		b.WriteString("def accesses : List (String × Bool × Nat) := [\n")
 		for i, a := range accs {
 			sep := ","
 			if i == len(accs)-1 {
 				sep = ""
 			}
-			fmt.Fprintf(&b, "  (%s, %v, %d)%s  -- %s:%d\n", leanStr(a.fn), a.write, a.mode, sep, a.file, a.line)
+			fmt.Fprintf(&b, "  (%s, %v, %d)%s\n", leanStr(a.fn), a.write, a.mode, sep)
 		}
 		b.WriteString("]\n\n")
-		// a call X.GetServerConf() is seen twice (call + selector): keep the call only
-		var ss []site
-		for _, x := range sites {
-			if x.what == "GetServerConf-ref" {
-				dup := false
-				for _, y := range sites {
-					if y.what == "GetServerConf" && y.file == x.file && y.line == x.line {
-						dup = true
-					}
-				}
-				if dup {
+		b.WriteString("/-- for the request-path and request-entry functions: number of places that obtain the CURRENT server data conf\n    (`GetServerConf()` call or `.ServerConf` access) reachable from them through same-package calls -/\n")
+		b.WriteString("def pathSites : List (String × Nat) := [\n")
+		var lines []string
+		for _, r := range roots {
+			if _, ok := srvPkg.funcs[r]; ok {
+				lines = append(lines, fmt.Sprintf("  (%s, %d)", leanStr(r), reach(r)))
+			}
+		}
+		b.WriteString(strings.Join(lines, ",\n") + "\n]\n\n")
+
+		// (3) lock exits
+		type ex struct {
+			fn       string
+			idx      int
+			released bool
+		}
+		var exits []ex
+		groups := []struct {
+			dir   string
+			files []string
+		}{
+			{"bfe_balance", []string{"bal_table.go"}},
+			{"bfe_balance/bal_gslb", []string{"bal_gslb.go"}},
+			{"bfe_server", []string{"bfe_confdata_load.go", "bfe_server.go", "reverseproxy.go"}},
+			{"bfe_route/bfe_cluster", []string{"bfe_cluster.go"}},
+		}
+		balTable := false
+		for _, g := range groups {
+			pk, err := c15Load(filepath.Join(repo, g.dir), nil)
+			if err != nil {
+				return "", err
+			}
+			inFiles := map[string]bool{}
+			for _, f := range g.files {
+				inFiles[f] = true
+			}
+			nt := pk.netEffects()
+			for _, q := range pk.order {
+				if !inFiles[pk.file[q]] {
 					continue
 				}
-			}
-			ss = append(ss, x)
-		}
-		sort.Slice(ss, func(i, j int) bool {
-			if ss[i].file != ss[j].file {
-				return ss[i].file < ss[j].file
-			}
-			return ss[i].line < ss[j].line
-		})
-		b.WriteString("/-- every place in package bfe_server where the CURRENT server data conf is obtained: a call of\n    `GetServerConf()` or a direct access `X.ServerConf`: (receiver-qualified function, what) -/\n")
-		b.WriteString("def snapshotSites : List (String × String) := [\n")
-		for i, a := range ss {
-			sep := ","
-			if i == len(ss)-1 {
-				sep = ""
-			}
-			fmt.Fprintf(&b, "  (%s, %s)%s  -- %s:%d\n", leanStr(a.fn), leanStr(a.what), sep, a.file, a.line)
-		}
-		b.WriteString("]\n\n")
-		exits, err := lockExitsOf(repo, []string{"bfe_balance/bal_table.go", "bfe_balance/bal_gslb/bal_gslb.go",
-			"bfe_server/bfe_confdata_load.go", "bfe_server/bfe_server.go", "bfe_server/reverseproxy.go", "bfe_route/bfe_cluster/bfe_cluster.go"})
-		if err != nil {
-			return "", err
-		}
-		haveReload := false
-		for _, e := range exits {
-			if e.fn == "bal_table.go:BalTable.BalTableReload" {
-				haveReload = true
+				if nt[q] != 0 {
+					continue // a pure lock / unlock helper: judged at its call sites
+				}
+				fd := pk.funcs[q]
+				w := &lockWalker{p: pk, env: pk.envOf(fd), net: nt}
+				h, term := w.walk(fd.Body.List, 0)
+				if !term {
+					w.exits = append(w.exits, h <= 0 || w.deferred)
+				}
+				if w.locks == 0 && !w.deferred {
+					continue
+				}
+				if pk.file[q] == "bal_table.go" {
+					balTable = true
+				}
+				all := true
+				for _, r := range w.exits {
+					all = all && r
+				}
+				// one line per function (the number of return statements is not a fact worth fingerprinting)
+				exits = append(exits, ex{pk.file[q] + ":" + q, 0, all})
 			}
 		}
-		if !haveReload {
-			return "", fmt.Errorf("bal_table.go: BalTable.BalTableReload no longer takes a lock itself")
+		if !balTable {
+			return "", fmt.Errorf("bal_table.go: no function takes the table lock any more")
 		}
-		b.WriteString("/-- every exit (return statement / end of body, by line) of every function of the reload and balancer-table code\n    that takes a mutex itself: (file:function, line, no lock held there or a deferred Unlock covers it) -/\n")
+		b.WriteString("/-- every function of the reload and balancer-table code that takes a mutex (itself or through a lock helper):\n    (file:function, 0, the mutex is released at EVERY exit: each return and the end of the body) -/\n")
 		b.WriteString("def lockExits : List (String × Nat × Bool) := [\n")
 		for i, e := range exits {
 			sep := ","
 			if i == len(exits)-1 {
 				sep = ""
 			}
-			fmt.Fprintf(&b, "  (%s, %d, %v)%s\n", leanStr(e.fn), e.line, e.released, sep)
+			fmt.Fprintf(&b, "  (%s, %d, %v)%s\n", leanStr(e.fn), e.idx, e.released, sep)
 		}
 		b.WriteString("]\n")
 		b.WriteString(footer("C15"))
